@@ -163,7 +163,7 @@ Proof.
     + exact (so_nodup _ _ a Hs).
     + exact (so_avail _ _ a Hs).
     + intros r Hr. destruct (is_reserved r s') eqn:Er; [|reflexivity].
-      rewrite (so_avail_nres _ _ a Hs r Hr) in Fk. specialize (Fk r Er). discriminate.
+      specialize (Fk r Er). rewrite (so_avail_nres _ _ a Hs r Hr) in Fk. discriminate.
     + exact (so_neg_avail _ _ a Hs).
     + exact (so_neg_ty _ _ a Hs).
     + exact (so_next _ _ a Hs).
@@ -178,6 +178,19 @@ Proof.
   - exact Hf.
   - exact H5.
 Qed.
+
+Lemma in_combine_l_ex : forall (a b : list value) x, In x a -> (length a <= length b)%nat ->
+  exists y, In (x, y) (combine a b).
+Proof.
+  induction a as [|h a IH]; intros b x Hx Hl; [destruct Hx|].
+  destruct b as [|hb b]; [simpl in Hl; lia|]. simpl in *. destruct Hx as [Hx|Hx].
+  - subst. exists hb. left. reflexivity.
+  - destruct (IH b x Hx) as [y Hy]; [lia|]. exists y. right. exact Hy.
+Qed.
+
+Lemma allocate_sops_app : forall c p s a,
+  allocate_sops c (p ++ s) a = bind (allocate_sops c s a) (allocate_sops c p).
+Proof. intros c p s a. unfold allocate_sops. rewrite rev_app_distr. apply fold_res_app. Qed.
 
 Lemma zip4_cover_c : forall c a b d y, In y c ->
   (length c <= length a)%nat -> (length c <= length b)%nat -> (length c <= length d)%nat ->
@@ -524,4 +537,628 @@ Section OneLoop.
       - exact (tc_step _ _ _ b y r_ (tc_step _ _ _ b b y (tc_refl _ _ _ b) (or_introl T2)) (or_introl T3)). }
     exact (tconn_trans _ _ _ u b w (tconn_sym _ _ _ b u (Cb u Hu)) (Cb w Hw)).
   Qed.
+
+  Hypothesis Htie_ok : forall p s, V = p ++ s -> forall v1 v2, live s v1 -> live s v2 -> v1 <> v2 ->
+    tconn pre f post v1 v2 -> False.          (* values tied into one register are never live together *)
+
+  Lemma iters_in_gv : forall it, In it (f_iters f) -> In it gv.
+  Proof.
+    intros it Hit. destruct Hlen as [L1 [L2 L3]].
+    destruct (zip4_cover_b (f_iters f) cb (f_yield f) (f_res f) it Hit) as [g [Hg Hitg]]; try lia.
+    apply (gv_in g it); [unfold groups; rewrite Hb; exact Hg | exact Hitg].
+  Qed.
+  Lemma cb_in_gv : forall b, In b cb -> In b gv.
+  Proof.
+    intros b Hbin. destruct Hlen as [L1 [L2 L3]].
+    destruct (zip4_cover_a cb (f_iters f) (f_yield f) (f_res f) b Hbin) as [g [Hg Hbg]]; try lia.
+    apply (gv_in g b); [unfold groups; rewrite Hb; exact Hg | exact Hbg].
+  Qed.
+  Lemma defs_H : forall d, In d (defs H_) <-> d = iv \/ In d cb.
+  Proof.
+    intros d. unfold defs, sop_results, Hop. simpl. rewrite Hb. simpl. split.
+    - intros [H|H]; [left; symmetry; exact H|]. right. apply in_map_iff in H. destruct H as [[x y] [E Hin]].
+      simpl in E. subst y. exact (in_combine_r _ _ _ _ Hin).
+    - intros [H|H]; [left; symmetry; exact H|]. right.
+      destruct Hlen as [L1 _]. 
+      assert (Hex : exists x, In (x, d) (combine (f_iters f) cb)).
+      { clear - H L1. revert L1. generalize (f_iters f) as its. induction cb as [|h t IH]; intros its L1; [destruct H|].
+        destruct its as [|i its]; [simpl in L1; lia|]. simpl in *. destruct H as [H|H].
+        - subst. exists i. left. reflexivity.
+        - destruct (IH H its) as [x Hx]; [lia|]. exists x. right. exact Hx. }
+      destruct Hex as [x Hx]. apply in_map_iff. exists (x, d). split; [reflexivity | exact Hx].
+  Qed.
+
+  Notation R_ := (f_body f ++ Y_ :: post).
+
+  (* ---- the loop header: unreserve, free the induction variable, allocate lb ---- *)
+  Lemma hphase : forall a6 a7 s8 a' riv,
+    (forall w1 w2 r, In w1 gv -> In w2 gv -> ty a6 w1 = Some r -> ty a6 w2 = Some r ->
+          exists g, In g gs /\ In w1 g /\ In w2 g) ->
+    (forall w r, In w gv -> ty a6 w = Some r -> ty a6 iv <> Some r) ->
+    (forall w r, In w gv -> ty a6 w = Some r ->
+          (r < 0 -> allow_inf (stk a6) = true)
+          /\ (In r (allocatable (stk a6)) \/ (r < 0 /\ allow_inf (stk a6) = true))) ->
+    (forall v, In v gv -> exists r, ty a6 v = Some r) ->
+    ty a6 iv = Some riv ->
+    Inv c (t0' a6) (FR' a6) (live R_) Enone (ment R_) a7 ->
+    (forall v, live R_ v -> exists r, ty a7 v = Some r) ->
+    mono a6 a7 -> same_pool (stk a6) (stk a7) ->
+    fold_res unreserve_register (somes (map (ty a6) (f_iters f))) (stk a7) = Ok s8 ->
+    allocate_value c (f_lb f) (fold_left (fun a v => free_value v a) (firstn 1 (f_bargs f)) (set_stk a7 s8)) = Ok a' ->
+    Inv0 (live (H_ :: R_)) Enone (ment (H_ :: R_)) a'
+    /\ (forall v, live (H_ :: R_) v -> exists r, ty a' v = Some r) /\ mono a7 a'.
+  Proof.
+    intros a6 a7 s8 a' riv DG IVF RF Hgvty Hivty HI7 Hall7 Hm67 [Pal Pallow] Hunres Hlb.
+    pose proof (FH (FR' a6) (FR'_tie a6)) as FHf.
+    set (L7 := live R_) in *. set (M7 := ment R_) in *.
+    assert (Hpset' : forall r, Pset (t0' a6) r -> exists w, In w gv /\ ty a6 w = Some r).
+    { intros r [w Hw]. unfold t0', rebased, t00 in Hw. destruct (memN w gv) eqn:Em; [|discriminate].
+      exists w. split; [apply memN_In; exact Em | exact Hw]. }
+    (* the iter operands hold their group registers and were not touched by the body *)
+    assert (Hit_facts : forall it, In it (f_iters f) -> ~ M7 it /\ exists r, ty a7 it = Some r).
+    { intros it Hit. destruct Hlen as [L1 _].
+      destruct (in_combine_l_ex (f_iters f) cb it Hit) as [b Hpair]; [lia|].
+      assert (HitH : In it (map fst (s_io H_))).
+      { unfold Hop. simpl. rewrite Hb. simpl. apply in_map_iff. exists (it, b). split; [reflexivity | exact Hpair]. }
+      split.
+      - intros [Hu|Hd]; [exact (of_io_dead c _ H_ _ FHf it HitH Hu)|].
+        assert (Hu' : In it (uses H_)) by (unfold uses, sop_operands; apply in_or_app; right; exact HitH).
+        exact (proj2 (of_use c _ H_ _ FHf it Hu') Hd).
+      - destruct (Hgvty it (iters_in_gv it Hit)) as [r Hr]. exists r. apply Hm67. exact Hr. }
+    pose proof (add_untouched_list c (t0' a6) (FR' a6) (FR'_pre a6) (f_iters f) L7 Enone M7 a7 HI7 Hit_facts) as HIa.
+    destruct HIa as [Hs' [H1' [H2' [Hf' H5']]]].
+    set (L2 := fun v => (L7 v /\ ~ In v cb) \/ In v (f_iters f)).
+    set (M2 := fun v => M7 v \/ In v (f_iters f) \/ In v gv).
+    assert (HL2sub : forall v, L2 v -> setof L7 (f_iters f) v).
+    { intros v [[Hv _]|Hv]; [left; exact Hv | right; exact Hv]. }
+    assert (Hiv_ty7 : ty a7 iv = Some riv) by (apply Hm67; exact Hivty).
+    assert (HLH : forall v, L2 v -> v <> iv -> live (H_ :: R_) v).
+    { intros v HL Hne. destruct HL as [[[Hu Hnd] Hncb]|Hit].
+      - split; [apply used_in_cons; right; exact Hu|]. intro Hc. apply defined_in_cons in Hc.
+        destruct Hc as [Hc|Hc]; [|exact (Hnd Hc)]. apply defs_H in Hc. destruct Hc as [Hc|Hc]; [exact (Hne Hc) | exact (Hncb Hc)].
+      - assert (HuH : In v (uses H_)).
+        { unfold uses, sop_operands, Hop. simpl. right. right. apply in_or_app. right. rewrite Hb. simpl.
+          destruct Hlen as [L1 _]. destruct (in_combine_l_ex (f_iters f) cb v Hit) as [b Hp]; [lia|].
+          apply in_map_iff. exists (v, b). split; [reflexivity | exact Hp]. }
+        split; [apply used_in_cons; left; exact HuH|]. intro Hc. apply defined_in_cons in Hc.
+        destruct (of_use c _ H_ _ FHf v HuH) as [N1 N2]. destruct Hc as [Hc|Hc]; [exact (N1 Hc) | exact (N2 Hc)]. }
+    assert (HI00 : Inv0 L2 Enone M2 a7).
+    { split; [|split; [|split; [|split]]].
+      - constructor.
+        + exact (so_nodup _ _ a7 Hs').
+        + exact (so_avail _ _ a7 Hs').
+        + exact (so_avail_nres _ _ a7 Hs').
+        + exact (so_neg_avail _ _ a7 Hs').
+        + intros v r Hr Hneg. destruct (so_neg_ty _ _ a7 Hs' v r Hr Hneg) as [K [K2|K2]]; (split; [exact K|]); left; [exact K2|].
+          destruct (Hpset' r K2) as [w [Hw Hrw]]. rewrite Pallow. exact (proj1 (RF w r Hw Hrw) Hneg).
+        + exact (so_next _ _ a7 Hs').
+        + exact (so_res_lt _ _ a7 Hs').
+        + intros r HP. exfalso. exact (no_pset00 r HP).
+        + intros Hz. split; [exact (proj1 (so_zero _ _ a7 Hs' Hz)) | apply no_pset00].
+        + intros v r Hv. discriminate.
+        + exact (so_zero_ty _ _ a7 Hs').
+        + intros v r Hr _.
+          assert (Hgreg_prov : forall w, In w gv -> ty a6 w = Some r ->
+                    In r (allocatable (stk a7)) \/ (r < 0 /\ allow_inf (stk a7) = true)
+                    \/ (zero_rule c = true /\ r = 0 /\ In v (zconsts c)) \/ Pset t00 r).
+          { intros w Hw Hrw. rewrite Pal, Pallow. destruct (proj2 (RF w r Hw Hrw)) as [H|H]; [left; exact H | right; left; exact H]. }
+          destruct (t0' a6 v) as [q|] eqn:Et.
+          * pose proof (so_mono _ _ a7 Hs' v q Et) as E. rewrite Hr in E. inversion E; subst q.
+            destruct (Hpset' r (ex_intro _ v Et)) as [w [Hw Hrw]]. exact (Hgreg_prov w Hw Hrw).
+          * destruct (so_prov _ _ a7 Hs' v r Hr Et) as [H|[H|[H|H]]];
+              [left; exact H | right; left; exact H | right; right; left; exact H|].
+            destruct (Hpset' r H) as [w [Hw Hrw]]. exact (Hgreg_prov w Hw Hrw).
+      - intros v r Hv Hr. exact (H1' v r (HL2sub v Hv) Hr).
+      - intros v1 v2 r Hv1 Hv2 Hne Hq1 Hq2.
+        destruct (H2' v1 v2 r (HL2sub v1 Hv1) (HL2sub v2 Hv2) Hne Hq1 Hq2) as [HP|[Hz|[]]]; [|right; left; exact Hz].
+        exfalso. destruct (Hpset' r HP) as [w [Hw Hrw]].
+        destruct (Nat.eq_dec v1 iv) as [E1|E1].
+        { subst v1. rewrite Hiv_ty7 in Hq1. inversion Hq1; subst riv. exact (IVF w r Hw Hrw Hivty). }
+        destruct (Nat.eq_dec v2 iv) as [E2|E2].
+        { subst v2. rewrite Hiv_ty7 in Hq2. inversion Hq2; subst riv. exact (IVF w r Hw Hrw Hivty). }
+        destruct (H5' v1 r (HL2sub v1 Hv1) Hq1 HP) as [w1 [Hw1 [Hr1 C1]]].
+        destruct (H5' v2 r (HL2sub v2 Hv2) Hq2 HP) as [w2 [Hw2 [Hr2 C2]]].
+        destruct (DG w1 w2 r Hw1 Hw2 Hr1 Hr2) as [g [Hg [Hg1 Hg2]]].
+        apply (Htie_ok pre (H_ :: R_) V_split_H v1 v2 (HLH v1 Hv1 E1) (HLH v2 Hv2 E2) Hne).
+        apply (tconn_trans _ _ _ v1 w1 v2); [apply tconn_sym; exact C1|].
+        apply (tconn_trans _ _ _ w1 w2 v2); [exact (group_conn g w1 w2 Hg Hg1 Hg2) | exact C2].
+      - intros v Hv. rewrite (Hf' v).
+        + unfold t0', rebased. destruct (memN v gv) eqn:Em; [|reflexivity].
+          exfalso. apply Hv. right. right. apply memN_In. exact Em.
+        + intros [Hc|Hc]; apply Hv; [left; exact Hc | right; left; exact Hc].
+      - intros v r _ _ HP. exfalso. exact (no_pset00 r HP). }
+    (* unreserve *)
+    destruct (unreserve_fields _ _ _ Hunres) as [Fal [Fav [Fn [Fi Fk]]]].
+    pose proof (unreserve_inv00 c FR00 L2 Enone M2 a7 s8 HI00 Fal Fav Fn Fi Fk) as HI8.
+    (* free the induction variable *)
+    rewrite Hb in Hlb. simpl in Hlb.
+    assert (HL2iv : L2 iv).
+    { left. split.
+      - split.
+        + apply used_in_app. right. apply used_in_cons. left. unfold uses, sop_operands, Yop. simpl. rewrite Hb. simpl. left. reflexivity.
+        + apply (of_def c _ H_ _ FHf iv). apply defs_H. left. reflexivity.
+      - intro Hc. exact (Hiv (cb_in_gv iv Hc)). }
+    destruct (free_inv c t00 FR00 L2 Enone M2 (set_stk a7 s8) iv riv HI8 HL2iv Hiv_ty7) as [HI9 Hty9].
+    { intros w. split; intros []. }
+    (* allocate lb *)
+    rewrite <- (fold_res_single (allocate_value c) (f_lb f)) in Hlb.
+    assert (HI9' : Inv0 (setof (delv L2 iv) []) Enone (setof M2 []) (free_value iv (set_stk a7 s8))).
+    { eapply Inv_weaken; [exact HI9 | intros v [Hv|[]]; exact Hv | intros v Hv; left; exact Hv]. }
+    assert (HuH_lb : In (f_lb f) (uses H_)) by (unfold uses, sop_operands, Hop; simpl; left; reflexivity).
+    destruct (alloc_list_phase c t00 FR00 FR00_pre (delv L2 iv) Enone M2 [f_lb f] [] _ a' HI9') as [HIf [Hmf [Half Hothf]]].
+    { intros v [Hv|[]]. subst v. destruct (Hbnd (f_lb f) (or_introl eq_refl)) as [Hngv Hneiv].
+      destruct (classic_ment R_ (f_lb f)) as [[Hu|Hd]|Hm].
+      - left. split; [|exact Hneiv]. left. split.
+        + split; [exact Hu | exact (proj2 (of_use c _ H_ _ FHf _ HuH_lb))].
+        + intro Hc. exact (Hngv (cb_in_gv _ Hc)).
+      - exfalso. exact (proj2 (of_use c _ H_ _ FHf _ HuH_lb) Hd).
+      - right. intros [Hc|[Hc|Hc]]; [exact (Hm Hc) | exact (Hngv (iters_in_gv _ Hc)) | exact (Hngv Hc)]. }
+    { exact Hlb. }
+    simpl in HIf.
+    assert (Hm7f : mono a7 a').
+    { intros w q Hq. apply Hmf. rewrite Hty9. simpl. exact Hq. }
+    assert (Hsubf : forall v, live (H_ :: R_) v -> setof (delv L2 iv) [f_lb f] v).
+    { intros v [Hu Hnd]. assert (Hnd1 : ~ In v (defs H_)) by (intro Hc; apply Hnd; apply defined_in_cons; left; exact Hc).
+      assert (Hnd2 : ~ defined_in R_ v) by (intro Hc; apply Hnd; apply defined_in_cons; right; exact Hc).
+      assert (Hneiv : v <> iv) by (intro Hc; apply Hnd1; apply defs_H; left; exact Hc).
+      assert (Hncb : ~ In v cb) by (intro Hc; apply Hnd1; apply defs_H; right; exact Hc).
+      apply used_in_cons in Hu. destruct Hu as [Hu|Hu].
+      - unfold uses, sop_operands, Hop in Hu. simpl in Hu. destruct Hu as [Hu|[Hu|Hu]].
+        + right. left. exact Hu.
+        + left. split; [|exact Hneiv]. left. split; [|exact Hncb]. subst v. split; [|exact Hnd2].
+          apply used_in_app. right. apply used_in_cons. left. unfold uses, sop_operands, Yop. simpl.
+          apply in_or_app. left. apply in_or_app. right. apply in_or_app. right. left. reflexivity.
+        + apply in_app_or in Hu. destruct Hu as [Hu|Hu].
+          * left. split; [|exact Hneiv]. left. split; [|exact Hncb]. split; [|exact Hnd2].
+            apply used_in_app. right. apply used_in_cons. left. unfold uses, sop_operands, Yop. simpl.
+            apply in_or_app. left. apply in_or_app. right. apply in_or_app. right. right. exact Hu.
+          * left. split; [|exact Hneiv]. right. rewrite Hb in Hu. simpl in Hu.
+            apply in_map_iff in Hu. destruct Hu as [[x y] [E Hin]]. simpl in E. subst x. exact (in_combine_l _ _ _ _ Hin).
+      - left. split; [|exact Hneiv]. left. split; [split; assumption | exact Hncb]. }
+    split; [|split; [|exact Hm7f]].
+    - eapply Inv_weaken; [exact HIf | exact Hsubf |].
+      intros v [[Hm|[Hit|Hg]]|Hlbv].
+      + destruct Hm as [Hu|Hd]; [left; apply used_in_cons; right; exact Hu | right; apply defined_in_cons; right; exact Hd].
+      + destruct (HLH v (or_intror Hit)) as [Hu _]; [|left; exact Hu].
+        intro Hc. subst v. exact (Hiv (iters_in_gv iv Hit)).
+      + apply in_concat in Hg. destruct Hg as [g [Hg Hvg]].
+        destruct (group_members g Hg) as [b [it [y [r_ [E [HinH [HinY _]]]]]]]. subst g. simpl in Hvg.
+        destruct Hvg as [Hv|[Hv|[Hv|[Hv|[]]]]]; subst v.
+        * right. apply defined_in_cons. left. unfold defs, sop_results. apply in_or_app. right.
+          apply in_map_iff. exists (it, b). split; [reflexivity | exact HinH].
+        * left. apply used_in_cons. left. unfold uses, sop_operands. apply in_or_app. right.
+          apply in_map_iff. exists (it, b). split; [reflexivity | exact HinH].
+        * left. apply used_in_cons. right. apply used_in_app. right. apply used_in_cons. left.
+          unfold uses, sop_operands. apply in_or_app. right. apply in_map_iff. exists (y, r_). split; [reflexivity | exact HinY].
+        * right. apply defined_in_cons. right. apply defined_in_app. right. apply defined_in_cons. left.
+          unfold defs, sop_results. apply in_or_app. right. apply in_map_iff. exists (y, r_). split; [reflexivity | exact HinY].
+      + simpl in Hlbv. destruct Hlbv as [Hlbv|[]]. subst v. left. apply used_in_cons. left. exact HuH_lb.
+    - intros v Hv. destruct (Hsubf v Hv) as [[[[HL7 _]|Hit] _]|Hlbv].
+      + destruct (Hall7 v HL7) as [r Hr]. exists r. apply Hm7f. exact Hr.
+      + destruct (proj2 (Hit_facts v Hit)) as [r Hr]. exists r. apply Hm7f. exact Hr.
+      + exact (Half v Hlbv).
+  Qed.
+
+  Lemma virt_split : forall p s, V = p ++ s ->
+    (exists ps', pre = p ++ ps' /\ s = ps' ++ H_ :: R_)
+    \/ (exists bp bs, f_body f = bp ++ bs /\ p = pre ++ H_ :: bp /\ s = bs ++ Y_ :: post)
+    \/ (exists pp, post = pp ++ s /\ p = (pre ++ H_ :: f_body f ++ [Y_]) ++ pp).
+  Proof.
+    intros p s Hsp. rewrite V_split_H in Hsp. apply app_eq_app in Hsp.
+    destruct Hsp as [l [[E1 E2]|[E1 E2]]].
+    - left. exists l. split; assumption.
+    - destruct l as [|o l'].
+      + left. exists []. simpl in E2. rewrite app_nil_r in E1. split; [rewrite app_nil_r; symmetry; exact E1 | symmetry; exact E2].
+      + simpl in E2. inversion E2 as [[Eo E3]]. subst o. apply app_eq_app in E3.
+        destruct E3 as [l2 [[F1 F2]|[F1 F2]]].
+        * right. left. exists l', l2. split; [exact F1 | split; [exact E1 | exact F2]].
+        * destruct l2 as [|o2 l3].
+          -- right. left. exists (f_body f), []. simpl in F2. rewrite app_nil_r in F1. subst l'.
+             split; [rewrite app_nil_r; reflexivity | split; [exact E1 | symmetry; exact F2]].
+          -- simpl in F2. inversion F2 as [[Eo2 F3]]. subst o2. right. right. exists l3.
+             split; [first [exact F3 | reflexivity]|]. rewrite E1, F1. rewrite <- !app_assoc. simpl. rewrite <- app_assoc. reflexivity.
+  Qed.
+
+  Definition loop_states_prop (a0 af ap a6 a7 ah : astate) : Prop :=
+    allocate_sops c post a0 = Ok ap
+    /\ Inv0 (live []) Enone (ment []) a0 /\ (forall v, live [] v -> exists r, ty a0 v = Some r)
+    /\ mono ap a6
+    /\ Inv c (t0' a6) (FR' a6) (live (Y_ :: post)) Enone (ment (Y_ :: post)) a6
+    /\ (forall v, live (Y_ :: post) v -> exists r, ty a6 v = Some r)
+    /\ (forall w1 w2 r, In w1 gv -> In w2 gv -> ty a6 w1 = Some r -> ty a6 w2 = Some r ->
+          exists g, In g gs /\ In w1 g /\ In w2 g)
+    /\ (forall w r, In w gv -> ty a6 w = Some r -> ty a6 iv <> Some r)
+    /\ (exists riv, ty a6 iv = Some riv)
+    /\ allocate_sops c (f_body f) a6 = Ok a7
+    /\ mono a7 ah
+    /\ Inv0 (live (H_ :: R_)) Enone (ment (H_ :: R_)) ah
+    /\ (forall v, live (H_ :: R_) v -> exists r, ty ah v = Some r)
+    /\ allocate_sops c pre ah = Ok af.
+
+  Lemma loop_states : forall a0 af,
+    sok c t00 a0 -> (forall v, ty a0 v = None) ->
+    allocate_block c (map Simple pre ++ For f :: map Simple post) a0 = Ok af ->
+    exists ap a6 a7 ah, loop_states_prop a0 af ap a6 a7 ah.
+  Proof.
+    intros a0 af Hsok0 Hty0 Hrun.
+    rewrite allocate_block_loop in Hrun.
+    destruct (allocate_sops c post a0) as [ap|e] eqn:Epost; simpl in Hrun; [|discriminate].
+    destruct (allocate_for c f ap) as [ah|e] eqn:Efor; simpl in Hrun; [|discriminate].
+    rename Hrun into Epre.
+    (* the start invariant *)
+    assert (HIstart : Inv0 (live []) Enone (ment []) a0).
+    { split; [exact Hsok0|]. split; [|split; [|split]].
+      - intros v r [[o [[] _]] _].
+      - intros v1 v2 r [[o [[] _]] _].
+      - intros v _. exact (Hty0 v).
+      - intros v r [[o [[] _]] _]. }
+    assert (Hallstart : forall v, live [] v -> exists r, ty a0 v = Some r) by (intros v [[o [[] _]] _]).
+    (* post walk *)
+    assert (Hpostwalk : forall pp ps aps, post = pp ++ ps -> allocate_sops c ps a0 = Ok aps ->
+              Inv0 (live ps) Enone (ment ps) aps /\ (forall v, live ps v -> exists r, ty aps v = Some r) /\ mono a0 aps).
+    { intros pp ps aps Hp Hr.
+      assert (Hl : V = ((pre ++ H_ :: f_body f ++ [Y_]) ++ pp) ++ ps ++ []).
+      { rewrite app_nil_r. unfold virt. rewrite Hp. repeat rewrite <- app_assoc; simpl; repeat rewrite <- app_assoc; simpl; reflexivity. }
+      pose proof (walk_from c t00 FR00 FR00_pre V Hwf Hio Hnz FR00_tie ps [] _ a0 aps Hl HIstart Hallstart Hr) as W.
+      rewrite app_nil_r in W. exact W. }
+    destruct (Hpostwalk [] post ap eq_refl Epost) as [HIp [Hallp Hm0p]].
+    (* decompose allocate_for *)
+    unfold allocate_for in Efor. rewrite Hb in Efor. cbn [tl firstn] in Efor.
+    destruct (fold_res (allocate_value c) li ap) as [a1|e] eqn:E1; cbn [bind] in Efor; [|discriminate].
+    destruct (fold_res allocate_values_same_reg (zip4 cb (f_iters f) (f_yield f) (f_res f)) a1) as [a2|e] eqn:E2;
+      cbn [bind] in Efor; [|discriminate].
+    destruct (fold_res (allocate_value c) [iv] a2) as [a3|e] eqn:E3; cbn [bind] in Efor; [|discriminate].
+    destruct (allocate_value c (f_ub f) a3) as [a4|e] eqn:E4; cbn [bind] in Efor; [|discriminate].
+    destruct (match f_step f with Some s0 => allocate_value c s0 a4 | None => Ok a4 end) as [a5|e] eqn:E5;
+      cbn [bind] in Efor; [|discriminate].
+    set (regs := somes (map (ty a5) (f_iters f))) in *.
+    set (a6 := set_stk a5 (fold_left (fun s r => reserve_register r s) regs (stk a5))) in *.
+    destruct (allocate_sops c (f_body f) a6) as [a7|e] eqn:E7; cbn [bind] in Efor; [|discriminate].
+    destruct (fold_res unreserve_register regs (stk a7)) as [s8|e] eqn:E8; cbn [bind] in Efor; [|discriminate].
+    assert (E2' : fold_res allocate_values_same_reg gs a1 = Ok a2). { unfold groups. rewrite Hb. exact E2. }
+    destruct (yphase ap a1 a2 a3 a4 a5 HIp Hallp E1 E2' E3 E4 E5) as [HI6 [Hmp6 [Hacc6 Hgreg6]]].
+    fold regs in HI6, Hgreg6, Hacc6, Hmp6. fold a6 in HI6, Hgreg6, Hacc6, Hmp6.
+    assert (HallS6 : forall v, live post v -> exists r, ty a6 v = Some r).
+    { intros v Hv. destruct (Hallp v Hv) as [r Hr]. exists r. apply Hmp6. exact Hr. }
+    destruct (yrebase a6 HI6 HallS6 Hacc6 Hgreg6) as [HI6' [Hall6' [DG [IVF RF]]]].
+    (* body walk *)
+    assert (Hbodywalk : forall bp bs abs, f_body f = bp ++ bs -> allocate_sops c bs a6 = Ok abs ->
+              Inv c (t0' a6) (FR' a6) (live (bs ++ Y_ :: post)) Enone (ment (bs ++ Y_ :: post)) abs
+              /\ (forall v, live (bs ++ Y_ :: post) v -> exists r, ty abs v = Some r) /\ mono a6 abs).
+    { intros bp bs abs Hbd Hr.
+      assert (Hl : V = (pre ++ H_ :: bp) ++ bs ++ Y_ :: post).
+      { unfold virt. rewrite Hbd. repeat rewrite <- app_assoc; simpl; repeat rewrite <- app_assoc; simpl; reflexivity. }
+      exact (walk_from c (t0' a6) (FR' a6) (FR'_pre a6) V Hwf Hio Hnz (FR'_tie a6) bs (Y_ :: post) _ a6 abs Hl HI6' Hall6' Hr). }
+    destruct (Hbodywalk [] (f_body f) a7 eq_refl E7) as [HI7 [Hall7 Hm67]].
+    (* header *)
+    assert (Hgvty6 : forall v, In v gv -> exists r, ty a6 v = Some r).
+    { intros v Hv. apply in_concat in Hv. destruct Hv as [g [Hg Hvg]]. destruct (Hgreg6 g Hg) as [R [HR _]].
+      exists R. exact (HR v Hvg). }
+    assert (Hiv6 : exists riv, ty a6 iv = Some riv).
+    { apply Hacc6. apply in_or_app; left; apply in_or_app; left; apply in_or_app; right; left; reflexivity. }
+    destruct Hiv6 as [riv Hiv6].
+    assert (Hregs6 : regs = somes (map (ty a6) (f_iters f))) by reflexivity.
+    rewrite Hregs6 in E8.
+    assert (Efor' : allocate_value c (f_lb f) (fold_left (fun a v => free_value v a) (firstn 1 (f_bargs f)) (set_stk a7 s8)) = Ok ah).
+    { rewrite Hb. cbn [firstn]. exact Efor. }
+    destruct (hphase a6 a7 s8 ah riv DG IVF RF Hgvty6 Hiv6 HI7 Hall7 Hm67 (allocate_sops_pool c _ a6 a7 E7) E8 Efor')
+      as [HIh [Hallh Hm7h]].
+    (* pre walk *)
+    assert (Hprewalk : forall pp ps aps, pre = pp ++ ps -> allocate_sops c ps ah = Ok aps ->
+              Inv0 (live (ps ++ H_ :: R_)) Enone (ment (ps ++ H_ :: R_)) aps
+              /\ (forall v, live (ps ++ H_ :: R_) v -> exists r, ty aps v = Some r) /\ mono ah aps).
+    { intros pp ps aps Hp Hr.
+      assert (Hl : V = pp ++ ps ++ H_ :: R_). { unfold virt. rewrite Hp. rewrite <- app_assoc. reflexivity. }
+      exact (walk_from c t00 FR00 FR00_pre V Hwf Hio Hnz FR00_tie ps (H_ :: R_) pp ah aps Hl HIh Hallh Hr). }
+    destruct (Hprewalk [] pre af eq_refl Epre) as [_ [_ Hmhf]].
+    assert (Hm6f : mono a6 af). { intros w q Hq. apply Hmhf. apply Hm7h. apply Hm67. exact Hq. }
+    exists ap, a6, a7, ah. unfold loop_states_prop.
+    split; [exact Epost|]. split; [exact HIstart|]. split; [exact Hallstart|]. split; [exact Hmp6|].
+    split; [exact HI6'|]. split; [exact Hall6'|]. split; [exact DG|]. split; [exact IVF|].
+    split; [exists riv; exact Hiv6|]. split; [exact E7|]. split; [exact Hm7h|]. split; [exact HIh|].
+    split; [exact Hallh | exact Epre].
+  Qed.
+
+  Theorem loop_no_interference : forall a0 af,
+    sok c t00 a0 -> (forall v, ty a0 v = None) ->
+    allocate_block c (map Simple pre ++ For f :: map Simple post) a0 = Ok af ->
+    forall p s, V = p ++ s ->
+      (forall v, live s v -> exists r, ty af v = Some r)
+      /\ (forall v1 v2 r, live s v1 -> live s v2 -> v1 <> v2 -> ty af v1 = Some r -> ty af v2 = Some r ->
+            zero_rule c = true /\ r = 0).
+  Proof.
+    intros a0 af Hsok0 Hty0 Hrun.
+    destruct (loop_states a0 af Hsok0 Hty0 Hrun) as [ap [a6 [a7 [ah St]]]].
+    destruct St as [Epost [HIstart [Hallstart [Hmp6 [HI6' [Hall6' [DG [IVF [[riv Hiv6] [E7 [Hm7h [HIh [Hallh Epre]]]]]]]]]]]]].
+    assert (Hpostwalk : forall pp ps aps, post = pp ++ ps -> allocate_sops c ps a0 = Ok aps ->
+              Inv0 (live ps) Enone (ment ps) aps /\ (forall v, live ps v -> exists r, ty aps v = Some r) /\ mono a0 aps).
+    { intros pp ps aps Hp Hr.
+      assert (Hl : V = ((pre ++ H_ :: f_body f ++ [Y_]) ++ pp) ++ ps ++ []).
+      { rewrite app_nil_r. unfold virt. rewrite Hp. repeat rewrite <- app_assoc; simpl; repeat rewrite <- app_assoc; simpl; reflexivity. }
+      pose proof (walk_from c t00 FR00 FR00_pre V Hwf Hio Hnz FR00_tie ps [] _ a0 aps Hl HIstart Hallstart Hr) as W.
+      rewrite app_nil_r in W. exact W. }
+    assert (Hbodywalk : forall bp bs abs, f_body f = bp ++ bs -> allocate_sops c bs a6 = Ok abs ->
+              Inv c (t0' a6) (FR' a6) (live (bs ++ Y_ :: post)) Enone (ment (bs ++ Y_ :: post)) abs
+              /\ (forall v, live (bs ++ Y_ :: post) v -> exists r, ty abs v = Some r) /\ mono a6 abs).
+    { intros bp bs abs Hbd Hr.
+      assert (Hl : V = (pre ++ H_ :: bp) ++ bs ++ Y_ :: post).
+      { unfold virt. rewrite Hbd. repeat rewrite <- app_assoc; simpl; repeat rewrite <- app_assoc; simpl; reflexivity. }
+      exact (walk_from c (t0' a6) (FR' a6) (FR'_pre a6) V Hwf Hio Hnz (FR'_tie a6) bs (Y_ :: post) _ a6 abs Hl HI6' Hall6' Hr). }
+    destruct (Hbodywalk [] (f_body f) a7 eq_refl E7) as [_ [_ Hm67]].
+    assert (Hprewalk : forall pp ps aps, pre = pp ++ ps -> allocate_sops c ps ah = Ok aps ->
+              Inv0 (live (ps ++ H_ :: R_)) Enone (ment (ps ++ H_ :: R_)) aps
+              /\ (forall v, live (ps ++ H_ :: R_) v -> exists r, ty aps v = Some r) /\ mono ah aps).
+    { intros pp ps aps Hp Hr.
+      assert (Hl : V = pp ++ ps ++ H_ :: R_). { unfold virt. rewrite Hp. rewrite <- app_assoc. reflexivity. }
+      exact (walk_from c t00 FR00 FR00_pre V Hwf Hio Hnz FR00_tie ps (H_ :: R_) pp ah aps Hl HIh Hallh Hr). }
+    destruct (Hprewalk [] pre af eq_refl Epre) as [_ [_ Hmhf]].
+    assert (Hm6f : mono a6 af). { intros w q Hq. apply Hmhf. apply Hm7h. apply Hm67. exact Hq. }
+    (* every program point *)
+    intros p s Hsp. destruct (virt_split p s Hsp) as [[ps' [Ep Es]]|[[bp [bs [Eb [Ep Es]]]]|[pp [Ep Ep2]]]].
+    - (* a point in the code before the loop (or just before the loop) *)
+      subst s. rewrite Ep in Epre. rewrite allocate_sops_app in Epre.
+      destruct (allocate_sops c ps' ah) as [aps|e] eqn:Eps; simpl in Epre; [|discriminate].
+      destruct (Hprewalk p ps' aps Ep Eps) as [[_ [_ [HG2 _]]] [Hal _]].
+      assert (Hl : V = [] ++ p ++ ps' ++ H_ :: R_). { simpl. unfold virt. rewrite Ep. rewrite <- app_assoc. reflexivity. }
+      destruct (Hprewalk p ps' aps Ep Eps) as [HIps [Halps _]].
+      destruct (walk_from c t00 FR00 FR00_pre V Hwf Hio Hnz FR00_tie p (ps' ++ H_ :: R_) [] aps af Hl HIps Halps Epre)
+        as [_ [_ Hmf]].
+      split.
+      + intros v Hv. destruct (Hal v Hv) as [r Hr]. exists r. apply Hmf. exact Hr.
+      + intros v1 v2 r Hv1 Hv2 Hne H1 H2.
+        destruct (Hal v1 Hv1) as [r1 Hr1]. destruct (Hal v2 Hv2) as [r2 Hr2].
+        pose proof (Hmf v1 r1 Hr1) as X1. pose proof (Hmf v2 r2 Hr2) as X2. rewrite H1 in X1. rewrite H2 in X2.
+        inversion X1; inversion X2; subst r1 r2.
+        destruct (HG2 v1 v2 r Hv1 Hv2 Hne Hr1 Hr2) as [HP|[Hz|[]]]; [exfalso; exact (no_pset00 r HP) | exact Hz].
+    - (* a point inside the loop body (incl. its start and its end) *)
+      subst s. rewrite Eb in E7. rewrite allocate_sops_app in E7.
+      destruct (allocate_sops c bs a6) as [abs|e] eqn:Ebs; simpl in E7; [|discriminate].
+      destruct (Hbodywalk bp bs abs Eb Ebs) as [HIbs [Halbs _]].
+      assert (Hl : V = (pre ++ [H_]) ++ bp ++ bs ++ Y_ :: post).
+      { unfold virt. rewrite Eb. repeat rewrite <- app_assoc; simpl; repeat rewrite <- app_assoc; simpl; reflexivity. }
+      destruct (walk_from c (t0' a6) (FR' a6) (FR'_pre a6) V Hwf Hio Hnz (FR'_tie a6) bp (bs ++ Y_ :: post) _ abs a7 Hl HIbs Halbs E7)
+        as [_ [_ Hmb7]].
+      assert (Hmf : mono abs af). { intros w q Hq. apply Hmhf. apply Hm7h. apply Hmb7. exact Hq. }
+      destruct HIbs as [_ [_ [HG2 [_ HG5]]]].
+      split.
+      + intros v Hv. destruct (Halbs v Hv) as [r Hr]. exists r. apply Hmf. exact Hr.
+      + intros v1 v2 r Hv1 Hv2 Hne H1 H2.
+        destruct (Halbs v1 Hv1) as [r1 Hr1]. destruct (Halbs v2 Hv2) as [r2 Hr2].
+        pose proof (Hmf v1 r1 Hr1) as X1. pose proof (Hmf v2 r2 Hr2) as X2. rewrite H1 in X1. rewrite H2 in X2.
+        inversion X1; inversion X2; subst r1 r2.
+        destruct (HG2 v1 v2 r Hv1 Hv2 Hne Hr1 Hr2) as [HP|[Hz|[]]]; [|exact Hz].
+        exfalso.
+        destruct (HG5 v1 r Hv1 Hr1 HP) as [w1 [Hw1 [Hq1 C1]]]. destruct (HG5 v2 r Hv2 Hr2 HP) as [w2 [Hw2 [Hq2 C2]]].
+        destruct (DG w1 w2 r Hw1 Hw2 Hq1 Hq2) as [g [Hg [Hg1 Hg2]]].
+        assert (Hl2 : V = (pre ++ H_ :: bp) ++ bs ++ Y_ :: post).
+        { unfold virt. rewrite Eb. repeat rewrite <- app_assoc; simpl; repeat rewrite <- app_assoc; simpl; reflexivity. }
+        apply (Htie_ok _ _ Hl2 v1 v2 Hv1 Hv2 Hne).
+        apply (tconn_trans _ _ _ v1 w1 v2); [apply tconn_sym; exact C1|].
+        apply (tconn_trans _ _ _ w1 w2 v2); [exact (group_conn g w1 w2 Hg Hg1 Hg2) | exact C2].
+    - (* a point in the code after the loop *)
+      rewrite Ep in Epost. rewrite allocate_sops_app in Epost.
+      destruct (allocate_sops c s a0) as [aps|e] eqn:Eps; simpl in Epost; [|discriminate].
+      destruct (Hpostwalk pp s aps Ep Eps) as [HIps [Halps _]].
+      assert (Hl : V = (pre ++ H_ :: f_body f ++ [Y_]) ++ pp ++ s).
+      { unfold virt. rewrite Ep. repeat rewrite <- app_assoc; simpl; repeat rewrite <- app_assoc; simpl; reflexivity. }
+      destruct (walk_from c t00 FR00 FR00_pre V Hwf Hio Hnz FR00_tie pp s _ aps ap Hl HIps Halps Epost) as [_ [_ Hmsp]].
+      assert (Hmf : mono aps af). { intros w q Hq. apply Hm6f. apply Hmp6. apply Hmsp. exact Hq. }
+      destruct HIps as [_ [_ [HG2 _]]].
+      split.
+      + intros v Hv. destruct (Halps v Hv) as [r Hr]. exists r. apply Hmf. exact Hr.
+      + intros v1 v2 r Hv1 Hv2 Hne H1 H2.
+        destruct (Halps v1 Hv1) as [r1 Hr1]. destruct (Halps v2 Hv2) as [r2 Hr2].
+        pose proof (Hmf v1 r1 Hr1) as X1. pose proof (Hmf v2 r2 Hr2) as X2. rewrite H1 in X1. rewrite H2 in X2.
+        inversion X1; inversion X2; subst r1 r2.
+        destruct (HG2 v1 v2 r Hv1 Hv2 Hne Hr1 Hr2) as [HP|[Hz|[]]]; [exfalso; exact (no_pset00 r HP) | exact Hz].
+  Qed.
+
+  Hypothesis Htie_ok_def : forall p o s, V = p ++ o :: s -> forall d v, In d (defs o) -> live s v -> d <> v ->
+    tconn pre f post d v -> False.     (* ... and none is written while another one is live *)
+
+  (* no result of an operation before, inside or after the loop is written into the register of a value
+     that is live after that operation; the loop header's write of the induction variable clobbers
+     nothing that is live in the body *)
+  Theorem loop_no_clobber : forall a0 af,
+    sok c t00 a0 -> (forall v, ty a0 v = None) ->
+    allocate_block c (map Simple pre ++ For f :: map Simple post) a0 = Ok af ->
+    (forall l1 o l2 rest, (pre = l1 ++ o :: l2 /\ rest = l2 ++ H_ :: R_)
+                          \/ (f_body f = l1 ++ o :: l2 /\ rest = l2 ++ Y_ :: post)
+                          \/ (post = l1 ++ o :: l2 /\ rest = l2) ->
+       forall d v r, In d (defs o) -> live rest v -> d <> v -> ty af d = Some r -> ty af v = Some r ->
+         zero_rule c = true /\ r = 0)
+    /\ (forall v r, live R_ v -> v <> iv -> ty af iv = Some r -> ty af v = Some r -> zero_rule c = true /\ r = 0).
+  Proof.
+    intros a0 af Hsok0 Hty0 Hrun.
+    destruct (loop_states a0 af Hsok0 Hty0 Hrun) as [ap [a6 [a7 [ah St]]]].
+    destruct St as [Epost [HIstart [Hallstart [Hmp6 [HI6' [Hall6' [DG [IVF [[riv Hiv6] [E7 [Hm7h [HIh [Hallh Epre]]]]]]]]]]]]].
+    assert (Hl7 : V = (pre ++ [H_]) ++ f_body f ++ Y_ :: post).
+    { unfold virt. repeat rewrite <- app_assoc; simpl; reflexivity. }
+    destruct (walk_from c (t0' a6) (FR' a6) (FR'_pre a6) V Hwf Hio Hnz (FR'_tie a6) (f_body f) (Y_ :: post) _ a6 a7 Hl7 HI6' Hall6' E7)
+      as [HI7 [Hall7 Hm67]].
+    assert (Hlf : V = [] ++ pre ++ H_ :: R_) by reflexivity.
+    destruct (walk_from c t00 FR00 FR00_pre V Hwf Hio Hnz FR00_tie pre (H_ :: R_) [] ah af Hlf HIh Hallh Epre) as [_ [_ Hmhf]].
+    assert (Hm7f : mono a7 af). { intros w q Hq. apply Hmhf. apply Hm7h. exact Hq. }
+    assert (Hm6f : mono a6 af). { intros w q Hq. apply Hm7f. apply Hm67. exact Hq. }
+    split.
+    - intros l1 o l2 rest [[Ep Er]|[[Eb Er]|[Ep Er]]] d v r Hd Hv Hne H1 H2; subst rest.
+      + (* before the loop *)
+        rewrite Ep in Epre. rewrite allocate_sops_app in Epre.
+        destruct (allocate_sops c (o :: l2) ah) as [ao|e] eqn:Eo; simpl in Epre; [|discriminate].
+        assert (Hl : V = l1 ++ (o :: l2) ++ H_ :: R_).
+        { unfold virt. rewrite Ep. repeat rewrite <- app_assoc; simpl; reflexivity. }
+        destruct (walk_head c t00 FR00 FR00_pre V Hwf Hio Hnz FR00_tie o l2 (H_ :: R_) l1 ah ao Hl HIh Hallh Eo)
+          as [Hdal [Hhead [_ [_ [_ Hval]]]]].
+        destruct (walk_from c t00 FR00 FR00_pre V Hwf Hio Hnz FR00_tie (o :: l2) (H_ :: R_) l1 ah ao Hl HIh Hallh Eo) as [HIo [Halo _]].
+        assert (Hl' : V = [] ++ l1 ++ (o :: l2) ++ H_ :: R_) by exact Hl.
+        destruct (walk_from c t00 FR00 FR00_pre V Hwf Hio Hnz FR00_tie l1 ((o :: l2) ++ H_ :: R_) [] ao af Hl' HIo Halo Epre) as [_ [_ Hmf]].
+        destruct (Hdal d Hd) as [rd Hrd]. destruct (Hval v Hv) as [rv Hrv].
+        pose proof (Hmf d rd Hrd) as X1. pose proof (Hmf v rv Hrv) as X2. rewrite H1 in X1. rewrite H2 in X2.
+        inversion X1; inversion X2; subst rd rv.
+        destruct (Hhead d v r Hd Hv Hne Hrd Hrv) as [HP|Hz]; [exfalso; exact (no_pset00 r HP) | exact Hz].
+      + (* inside the body *)
+        rewrite Eb in E7. rewrite allocate_sops_app in E7.
+        destruct (allocate_sops c (o :: l2) a6) as [ao|e] eqn:Eo; simpl in E7; [|discriminate].
+        assert (Hl : V = (pre ++ H_ :: l1) ++ (o :: l2) ++ Y_ :: post).
+        { unfold virt. rewrite Eb. repeat rewrite <- app_assoc; simpl; repeat rewrite <- app_assoc; simpl; reflexivity. }
+        destruct (walk_head c (t0' a6) (FR' a6) (FR'_pre a6) V Hwf Hio Hnz (FR'_tie a6) o l2 (Y_ :: post) _ a6 ao Hl HI6' Hall6' Eo)
+          as [Hdal [Hhead [_ [Hfv [Hfd Hval]]]]].
+        destruct (walk_from c (t0' a6) (FR' a6) (FR'_pre a6) V Hwf Hio Hnz (FR'_tie a6) (o :: l2) (Y_ :: post) _ a6 ao Hl HI6' Hall6' Eo)
+          as [HIo [Halo _]].
+        assert (Hl' : V = (pre ++ [H_]) ++ l1 ++ (o :: l2) ++ Y_ :: post).
+        { unfold virt. rewrite Eb. repeat rewrite <- app_assoc; simpl; repeat rewrite <- app_assoc; simpl; reflexivity. }
+        destruct (walk_from c (t0' a6) (FR' a6) (FR'_pre a6) V Hwf Hio Hnz (FR'_tie a6) l1 ((o :: l2) ++ Y_ :: post) _ ao a7 Hl' HIo Halo E7)
+          as [_ [_ Hmo7]].
+        assert (Hmf : mono ao af). { intros w q Hq. apply Hm7f. apply Hmo7. exact Hq. }
+        destruct (Hdal d Hd) as [rd Hrd]. destruct (Hval v Hv) as [rv Hrv].
+        pose proof (Hmf d rd Hrd) as X1. pose proof (Hmf v rv Hrv) as X2. rewrite H1 in X1. rewrite H2 in X2.
+        inversion X1; inversion X2; subst rd rv.
+        destruct (Hhead d v r Hd Hv Hne Hrd Hrv) as [HP|Hz]; [|exact Hz].
+        exfalso.
+        destruct (Hfd d r Hd Hrd HP) as [w1 [Hw1 [Hq1 C1]]]. destruct (Hfv v r Hv Hrv HP) as [w2 [Hw2 [Hq2 C2]]].
+        destruct (DG w1 w2 r Hw1 Hw2 Hq1 Hq2) as [g [Hg [Hg1 Hg2]]].
+        assert (Hl2 : V = (pre ++ H_ :: l1) ++ o :: (l2 ++ Y_ :: post)) by exact Hl.
+        apply (Htie_ok_def _ o _ Hl2 d v Hd Hv Hne).
+        apply (tconn_trans _ _ _ d w1 v); [apply tconn_sym; exact C1|].
+        apply (tconn_trans _ _ _ w1 w2 v); [exact (group_conn g w1 w2 Hg Hg1 Hg2) | exact C2].
+      + (* after the loop *)
+        rewrite Ep in Epost. rewrite allocate_sops_app in Epost.
+        destruct (allocate_sops c (o :: l2) a0) as [ao|e] eqn:Eo; simpl in Epost; [|discriminate].
+        assert (Hl : V = ((pre ++ H_ :: f_body f ++ [Y_]) ++ l1) ++ (o :: l2) ++ []).
+        { rewrite app_nil_r. unfold virt. rewrite Ep. repeat rewrite <- app_assoc; simpl; repeat rewrite <- app_assoc; simpl; reflexivity. }
+        destruct (walk_head c t00 FR00 FR00_pre V Hwf Hio Hnz FR00_tie o l2 [] _ a0 ao Hl HIstart Hallstart Eo)
+          as [Hdal [Hhead [_ [_ [_ Hval]]]]].
+        destruct (walk_from c t00 FR00 FR00_pre V Hwf Hio Hnz FR00_tie (o :: l2) [] _ a0 ao Hl HIstart Hallstart Eo) as [HIo [Halo _]].
+        assert (Hl' : V = (pre ++ H_ :: f_body f ++ [Y_]) ++ l1 ++ (o :: l2) ++ []).
+        { rewrite app_nil_r. unfold virt. rewrite Ep. repeat rewrite <- app_assoc; simpl; repeat rewrite <- app_assoc; simpl; reflexivity. }
+        destruct (walk_from c t00 FR00 FR00_pre V Hwf Hio Hnz FR00_tie l1 ((o :: l2) ++ []) _ ao ap Hl' HIo Halo Epost) as [_ [_ Hmop]].
+        assert (Hmf : mono ao af). { intros w q Hq. apply Hm6f. apply Hmp6. apply Hmop. exact Hq. }
+        rewrite app_nil_r in Hval, Hhead.
+        destruct (Hdal d Hd) as [rd Hrd]. destruct (Hval v Hv) as [rv Hrv].
+        pose proof (Hmf d rd Hrd) as X1. pose proof (Hmf v rv Hrv) as X2. rewrite H1 in X1. rewrite H2 in X2.
+        inversion X1; inversion X2; subst rd rv.
+        destruct (Hhead d v r Hd Hv Hne Hrd Hrv) as [HP|Hz]; [exfalso; exact (no_pset00 r HP) | exact Hz].
+    - (* the induction variable *)
+      intros v r Hv Hne Hiv_f Hv_f.
+      pose proof (FH FR00 FR00_tie) as FHf.
+      assert (HLiv : live R_ iv).
+      { split.
+        - apply used_in_app. right. apply used_in_cons. left. unfold uses, sop_operands, Yop. simpl. rewrite Hb. simpl. left. reflexivity.
+        - apply (of_def c _ H_ _ FHf iv). apply defs_H. left. reflexivity. }
+      destruct (Hall7 v Hv) as [rv Hrv]. pose proof (Hm7f v rv Hrv) as X. rewrite Hv_f in X. inversion X; subst rv.
+      pose proof (Hm6f iv riv Hiv6) as Y. rewrite Hiv_f in Y. inversion Y; subst riv.
+      destruct HI7 as [_ [_ [HG2 _]]].
+      destruct (HG2 iv v r HLiv Hv (fun Hc => Hne (eq_sym Hc)) (Hm67 iv r Hiv6) Hrv) as [HP|[Hz|[]]]; [|exact Hz].
+      exfalso. destruct HP as [w Hw]. unfold t0', rebased, t00 in Hw. destruct (memN w gv) eqn:Em; [|discriminate].
+      apply memN_In in Em. exact (IVF w r Em Hw Hiv6).
+  Qed.
 End OneLoop.
+
+(* ---- the initial state of allocate_func when nothing is pre-assigned ---- *)
+Lemma somes_all_none : forall (l : list (option Z)), (forall v, nth v l None = None) -> somes l = [].
+Proof.
+  induction l as [|x t IH]; intros H; [reflexivity|].
+  pose proof (H 0%nat) as H0. simpl in H0. subst x. simpl. apply IH. intros v. exact (H (S v)).
+Qed.
+
+Lemma somes_map_none : forall {A} (g : A -> option Z) l, (forall x, g x = None) -> somes (map g l) = [].
+Proof. intros A g l H. induction l as [|x t IH]; simpl; [reflexivity | rewrite H; exact IH]. Qed.
+
+Lemma used_registers_none : forall fn, (forall v, ty0 fn v = None) -> used_registers fn = [].
+Proof.
+  intros fn H. unfold used_registers.
+  assert (E1 : somes (fn_pre fn) = []) by (apply somes_all_none; exact H).
+  assert (E2 : used_registers_old fn = []).
+  { unfold used_registers_old.
+    assert (E : somes (flat_map (fun o => if s_eff o then map (ty0 fn) (sop_results o ++ sop_operands o) else [])
+                                (all_sops (fn_ops fn))) = []).
+    { induction (all_sops (fn_ops fn)) as [|o t IH]; [reflexivity|]. simpl.
+      assert (Eo : somes (if s_eff o then map (ty0 fn) (sop_results o ++ sop_operands o) else []) = []).
+      { destruct (s_eff o); [apply somes_map_none; exact H | reflexivity]. }
+      clear - Eo IH. revert Eo. generalize (if s_eff o then map (ty0 fn) (sop_results o ++ sop_operands o) else []) as l1.
+      induction l1 as [|[x|] l1 IHl]; intros Eo; simpl in *; [exact IH | discriminate | exact (IHl Eo)]. }
+    rewrite E. reflexivity. }
+  rewrite E1, E2. reflexivity.
+Qed.
+
+Lemma init_sok00 : forall zr pool allow fn,
+  (zr = true -> ~ In 0 pool) -> (forall r, In r pool -> 0 <= r) -> (forall v, ty0 fn v = None) ->
+  sok (mk_cfg zr fn) t00 (init_state pool allow fn) /\ (forall v, ty (init_state pool allow fn) v = None).
+Proof.
+  intros zr pool allow fn Hz Hpool Hnone. unfold init_state. rewrite (used_registers_none fn Hnone). simpl.
+  destruct (stack_get_ok pool allow) as [Hb [Hsub Hal]].
+  split; [|exact Hnone].
+  constructor; simpl.
+  - exact (b_nodup_av _ Hb).
+  - intros r Hr. left. exact (b_sub _ Hb r Hr).
+  - intros r Hr. unfold is_reserved. rewrite (b_res _ Hb). reflexivity.
+  - intros r Hr Hneg. pose proof (Hpool r (Hsub r (b_sub _ Hb r Hr))). lia.
+  - intros v r Hr. rewrite Hnone in Hr. discriminate.
+  - rewrite (b_next _ Hb). lia.
+  - intros k Hk. unfold is_reserved in Hk. rewrite (b_res _ Hb) in Hk. discriminate.
+  - intros r [w Hw]. discriminate.
+  - intros Hzr. split; [intro Hc; exact (Hz Hzr (Hsub 0 Hc)) | intros [w Hw]; discriminate].
+  - intros v r Hv. discriminate.
+  - intros v _ Hr. rewrite Hnone in Hr. discriminate.
+  - intros v r Hr. rewrite Hnone in Hr. discriminate.
+Qed.
+
+(* the theorem for allocate_func *)
+Theorem func_loop_no_interference : forall zr pool allow types pre f post iv cb af,
+  let fn := mkFunc types (map Simple pre ++ For f :: map Simple post) in
+  let c := mk_cfg zr fn in
+  (zr = true -> ~ In 0 pool) -> (forall r, In r pool -> 0 <= r) -> (forall v, ty0 fn v = None) ->
+  f_bargs f = iv :: cb ->
+  wf_prog (virt pre f post) -> io_ok (virt pre f post) ->
+  (forall o x y, In o (virt pre f post) -> In (x, y) (s_io o) -> ~ In y (zconsts c)) ->
+  length (f_iters f) = length cb /\ length (f_iters f) = length (f_yield f) /\ length (f_iters f) = length (f_res f) ->
+  NoDup (concat (groups f)) ->
+  (forall v, In v (iv :: cb) \/ defined_in (f_body f) v -> ~ used_in post v) ->
+  ~ In iv (concat (groups f)) ->
+  (forall v, In v (live_ins_body f) -> ~ In v (concat (groups f)) /\ v <> iv) ->
+  (forall v, In v (f_lb f :: f_ub f :: step_list f) -> ~ In v (concat (groups f)) /\ v <> iv) ->
+  (forall p s, virt pre f post = p ++ s -> forall v1 v2, live s v1 -> live s v2 -> v1 <> v2 ->
+     tconn pre f post v1 v2 -> False) ->
+  allocate_func zr pool allow fn = Ok af ->
+  forall p s, virt pre f post = p ++ s ->
+    (forall v, live s v -> exists r, ty af v = Some r)
+    /\ (forall v1 v2 r, live s v1 -> live s v2 -> v1 <> v2 -> ty af v1 = Some r -> ty af v2 = Some r ->
+          zr = true /\ r = 0).
+Proof.
+  intros zr pool allow types pre f post iv cb af fn c Hz Hpool Hnone Hb Hwf Hio Hnz Hlen Hgs Hscope Hiv Hli Hbnd Htie Hrun.
+  destruct (init_sok00 zr pool allow fn Hz Hpool Hnone) as [Hsok Hty].
+  unfold allocate_func in Hrun. simpl in Hrun.
+  exact (loop_no_interference c pre post f iv cb Hb Hwf Hio Hnz Hlen Hgs Hscope Hiv Hli Hbnd Htie _ af Hsok Hty Hrun).
+Qed.
+
+Theorem func_loop_no_clobber : forall zr pool allow types pre f post iv cb af,
+  let fn := mkFunc types (map Simple pre ++ For f :: map Simple post) in
+  let c := mk_cfg zr fn in
+  (zr = true -> ~ In 0 pool) -> (forall r, In r pool -> 0 <= r) -> (forall v, ty0 fn v = None) ->
+  f_bargs f = iv :: cb ->
+  wf_prog (virt pre f post) -> io_ok (virt pre f post) ->
+  (forall o x y, In o (virt pre f post) -> In (x, y) (s_io o) -> ~ In y (zconsts c)) ->
+  length (f_iters f) = length cb /\ length (f_iters f) = length (f_yield f) /\ length (f_iters f) = length (f_res f) ->
+  NoDup (concat (groups f)) ->
+  (forall v, In v (iv :: cb) \/ defined_in (f_body f) v -> ~ used_in post v) ->
+  ~ In iv (concat (groups f)) ->
+  (forall v, In v (live_ins_body f) -> ~ In v (concat (groups f)) /\ v <> iv) ->
+  (forall v, In v (f_lb f :: f_ub f :: step_list f) -> ~ In v (concat (groups f)) /\ v <> iv) ->
+  (forall p s, virt pre f post = p ++ s -> forall v1 v2, live s v1 -> live s v2 -> v1 <> v2 ->
+     tconn pre f post v1 v2 -> False) ->
+  (forall p o s, virt pre f post = p ++ o :: s -> forall d v, In d (defs o) -> live s v -> d <> v ->
+     tconn pre f post d v -> False) ->
+  allocate_func zr pool allow fn = Ok af ->
+  (forall l1 o l2 rest, (pre = l1 ++ o :: l2 /\ rest = l2 ++ Hop f :: f_body f ++ Yop f :: post)
+                        \/ (f_body f = l1 ++ o :: l2 /\ rest = l2 ++ Yop f :: post)
+                        \/ (post = l1 ++ o :: l2 /\ rest = l2) ->
+     forall d v r, In d (defs o) -> live rest v -> d <> v -> ty af d = Some r -> ty af v = Some r ->
+       zr = true /\ r = 0)
+  /\ (forall v r, live (f_body f ++ Yop f :: post) v -> v <> iv -> ty af iv = Some r -> ty af v = Some r ->
+       zr = true /\ r = 0).
+Proof.
+  intros zr pool allow types pre f post iv cb af fn c Hz Hpool Hnone Hb Hwf Hio Hnz Hlen Hgs Hscope Hiv Hli Hbnd Htie Htied Hrun.
+  destruct (init_sok00 zr pool allow fn Hz Hpool Hnone) as [Hsok Hty].
+  unfold allocate_func in Hrun. simpl in Hrun.
+  exact (loop_no_clobber c pre post f iv cb Hb Hwf Hio Hnz Hlen Hgs Hscope Hiv Hli Hbnd Htie Htied _ af Hsok Hty Hrun).
+Qed.
